@@ -55,6 +55,8 @@ Inductive effect :=
 | EBreak
 | ECallback               (* call of a function value *)
 | ECallStmt               (* call statement (result discarded) on state that outlives the iteration *)
+| ECallImpure             (* call in value position whose callee may write state that outlives the iteration (through its
+                             receiver, its arguments, package-level variables, or in ways the call summary cannot see) *)
 | EStreamConsume          (* consumes the injected uuid / clock / random stream *)
 | ENestedMapRange
 | EChan | EGo | EDefer | EPanic
@@ -89,7 +91,7 @@ Definition effect_eqb (a b : effect) : bool :=
   | EFlagSet, EFlagSet | EElemWrite, EElemWrite | ELoopCarried, ELoopCarried
   | EReturnConst, EReturnConst | EReturnErr, EReturnErr
   | EReturnValue, EReturnValue | EBreak, EBreak | ECallback, ECallback | ECallStmt, ECallStmt
-  | EStreamConsume, EStreamConsume | ENestedMapRange, ENestedMapRange | EChan, EChan | EGo, EGo
+  | ECallImpure, ECallImpure | EStreamConsume, EStreamConsume | ENestedMapRange, ENestedMapRange | EChan, EChan | EGo, EGo
   | EDefer, EDefer | EPanic, EPanic => true
   | EAppend s, EAppend t => sortkind_eqb s t
   | EOrderCall s, EOrderCall t => sortkind_eqb s t
@@ -134,7 +136,10 @@ Inductive reason :=
 | RFirstMatchUnique    (* flowAssets.FindByName: first match; invariant when at most one cached flow has the name *)
 | RHeaderDefaults      (* webhooks service: defaults written through http.Header canonical names from engine configuration *)
 | RKeySelected         (* jsonpath.visit: `k == selector` selects at most one key; the wildcard branch writes by the key *)
-| RKeyPartitioned      (* every iteration reads and writes only dst[k] for its own key k *).
+| RKeyPartitioned      (* every iteration reads and writes only dst[k] for its own key k *)
+| RPureCalleeReviewed  (* a value-position callee the call summary cannot clear (interface dispatch over-approximated by method
+                          name, parser outside the module) was reviewed: its result is a function of its arguments and it writes
+                          nothing that outlives the call; the body is then an accepted body *).
 
 Record exception_entry := {
   x_pkg : string; x_func : string; x_ord : nat;
